@@ -6,6 +6,7 @@ CONSTANTS
   Kinds = {"close", "keep", "ws"}
   SigTwice = TRUE
   Dev = {}
+  Faults = {}
   SigAfter = 14
   MaxLen = 60
 INIT GenInit
